@@ -150,36 +150,41 @@ func TestEnvelopeDEK(t *testing.T) {
 		t.Fatal(err)
 	}
 	kekAEAD := tk.Must(newSubtleGCM(kekKey))
-	env := aead.NewKMSEnvelopeAEAD2(aead.AES256GCMKeyTemplate(), kekAEAD)
-	n := nOps(2)
-	var encDEKs, deks, kekNonces, dekNonces [][]byte
-	for i := 0; i < n; i++ {
-		ct, err := env.Encrypt([]byte("x"), nil)
+	for _, api := range tk.EnvelopeAPIs { // both public constructors: same format, separate code paths
+		env, err := tk.Envelope(api, aead.AES256GCMKeyTemplate(), kekAEAD)
 		if err != nil {
 			t.Fatal(err)
 		}
-		l := int(binary.BigEndian.Uint32(ct[:4]))
-		enc := ct[4 : 4+l]
-		encDEKs = append(encDEKs, append([]byte{}, enc...))
-		kekNonces = append(kekNonces, append([]byte{}, enc[:12]...))
-		dek, err := kekCase.RefOpen(enc, nil)
-		if err != nil {
-			t.Fatalf("encrypted DEK does not open: %v", err)
+		n := nOps(2)
+		var encDEKs, deks, kekNonces, dekNonces [][]byte
+		for i := 0; i < n; i++ {
+			ct, err := env.Encrypt([]byte("x"), nil)
+			if err != nil {
+				t.Fatal(err)
+			}
+			l := int(binary.BigEndian.Uint32(ct[:4]))
+			enc := ct[4 : 4+l]
+			encDEKs = append(encDEKs, append([]byte{}, enc...))
+			kekNonces = append(kekNonces, append([]byte{}, enc[:12]...))
+			dek, err := kekCase.RefOpen(enc, nil)
+			if err != nil {
+				t.Fatalf("encrypted DEK does not open: %v", err)
+			}
+			k := &gcmpb.AesGcmKey{}
+			if err := proto.Unmarshal(dek, k); err != nil {
+				t.Fatal(err)
+			}
+			deks = append(deks, k.GetKeyValue())
+			dekNonces = append(dekNonces, append([]byte{}, ct[4+l:4+l+12]...))
 		}
-		k := &gcmpb.AesGcmKey{}
-		if err := proto.Unmarshal(dek, k); err != nil {
-			t.Fatal(err)
-		}
-		deks = append(deks, k.GetKeyValue())
-		dekNonces = append(dekNonces, append([]byte{}, ct[4+l:4+l+12]...))
+		distinctOnly(t, "envelope", "envelope/"+api+"/encrypted-DEK", encDEKs)
+		rep, msg := uniformBytes("envelope/"+api+"/DEK key bytes (AES-256-GCM)", deks)
+		record(t, "envelope", rep, msg)
+		rep, msg = uniformBytes("envelope/"+api+"/KEK nonce", kekNonces)
+		record(t, "envelope", rep, msg)
+		rep, msg = uniformBytes("envelope/"+api+"/payload nonce", dekNonces)
+		record(t, "envelope", rep, msg)
 	}
-	distinctOnly(t, "envelope", "envelope/encrypted-DEK", encDEKs)
-	rep, msg := uniformBytes("envelope/DEK key bytes (AES-256-GCM)", deks)
-	record(t, "envelope", rep, msg)
-	rep, msg = uniformBytes("envelope/KEK nonce", kekNonces)
-	record(t, "envelope", rep, msg)
-	rep, msg = uniformBytes("envelope/payload nonce", dekNonces)
-	record(t, "envelope", rep, msg)
 }
 
 type sink struct{ bytes.Buffer }
